@@ -532,7 +532,10 @@ pub fn inject(ch: &mut Choices, doc: &mut Vec<MTsDef>) -> Option<TsFault> {
                     if loc == "FIELD_DEFINITION" {
                         t.fields[k].directives.extend(dirs.clone());
                     } else {
-                        t.fields[k].args.push(MInputValue { desc: None, name: "argWithDirective".into(), ty: MType::named("Int"), default: None, directives: dirs.clone() });
+                        // with and without a default value and a description (the directives come last in the grammar)
+                        let default = if ch.flip() { Some(MValue::Int("10".into())) } else { None };
+                        let desc = if ch.chance(1, 3) { Some("an argument".to_string()) } else { None };
+                        t.fields[k].args.push(MInputValue { desc, name: "argWithDirective".into(), ty: MType::named("Int"), default, directives: dirs.clone() });
                         // keep interface conformance: add the same optional argument nowhere else is fine
                     }
                     true
@@ -557,6 +560,9 @@ pub fn inject(ch: &mut Choices, doc: &mut Vec<MTsDef>) -> Option<TsFault> {
                     let t = tdef(doc, i);
                     let k = ch.below(t.input_fields.len());
                     t.input_fields[k].directives.extend(dirs.clone());
+                    if t.input_fields[k].default.is_none() && !t.input_fields[k].ty.is_non_null() && ch.flip() {
+                        t.input_fields[k].default = Some(MValue::Null);
+                    }
                     true
                 }
                 l => {
